@@ -298,6 +298,17 @@ def run(ctx):
         if bres == a:
             ctx.fail_input("a gap inside a Combine(adjacent)/leave_whitespace region was skipped", {"input": s_gap}, "no longer the same token", bres,
                            theorem="PP.Parse.preParse_noskip (oracle)")
+    # registered finding: a Combine / leave_whitespace region does not reach through a Forward
+    fw = pp.Forward()
+    fw <<= pp.Word("b") | pp.Literal(",")
+    try:
+        rfw = pp.Combine(pp.Literal("a") + fw).parse_string("a b").as_list()
+    except pp.ParseBaseException:
+        rfw = None
+    if rfw is not None:
+        ctx.fail_input("a gap inside a Combine(adjacent)/leave_whitespace region was skipped",
+                       {"program": "f = Forward(); f <<= Word('b') | ','; Combine(Literal('a') + f)", "input": "a b"},
+                       "ParseException", rfw, theorem="C09 statement (converse clause)", signature="forward_inside_combine_skips")
     # registered finding: Or counts the blanks a failing trailing Opt/ZeroOrMore has eaten
     A, B = pp.CaselessLiteral("aB"), pp.Word("ab") + pp.ZeroOrMore(pp.Literal("+"))
     rt = (A ^ B) + ";"
